@@ -1,0 +1,96 @@
+//! verification hooks. compiled only with the `verif_hooks` cargo feature (off by default).
+//!
+//! the library emits [`Event`]s at a few fixed points; an external harness may install a
+//! sink to observe them. with no sink installed `emit` is a single atomic load.
+use std::sync::atomic::{AtomicBool, Ordering};
+use std::sync::{Arc, RwLock};
+
+/// an observation point inside the library. ids are the raw `usize` of the
+/// corresponding `VertexId` / `EdgeId`.
+#[derive(Debug)]
+pub enum Event<'a> {
+    /// entry of `run_a_star` (after the source == target shortcut)
+    SearchStart {
+        source: usize,
+        target: Option<usize>,
+        reverse: bool,
+    },
+    /// top of the search loop, before the termination test
+    LoopTop { iterations: u64, tree_len: usize },
+    /// a vertex was popped for expansion; `g` is its cost-so-far
+    Pop { vertex: usize, g: f64 },
+    /// the frontier model rejected this edge in the current expansion
+    FrontierReject { edge: usize },
+    /// an edge was traversed and compared with the label at `key_vertex`
+    Relax {
+        edge: usize,
+        key_vertex: usize,
+        terminal_vertex: usize,
+        edge_cost: f64,
+        tentative: f64,
+        existing: f64,
+        accepted: bool,
+    },
+    /// normal exit of `run_a_star`
+    SearchEnd { iterations: u64, tree_len: usize },
+    /// top of the outer loop of a k-shortest-paths algorithm
+    KspOuter {
+        algorithm: &'static str,
+        accepted: usize,
+        k: usize,
+    },
+    /// one spur / alternative evaluation inside a k-shortest-paths algorithm
+    KspInner { algorithm: &'static str, index: usize },
+    /// queries after load balancing, one slice per parallel batch
+    LoadBalanced(&'a [Vec<&'a serde_json::Value>]),
+    /// a (post-plugin) query is about to be searched
+    QueryStart(&'a serde_json::Value),
+    /// the response for a query has been built
+    QueryEnd(&'a serde_json::Value),
+    /// about to hand a response to the response sink
+    BeforeWrite(&'a serde_json::Value),
+    /// the response sink returned
+    AfterWrite(&'a serde_json::Value),
+    /// inside the file sink, both locks held, before formatting
+    SinkLocked,
+    /// inside the file sink, row written, locks about to be released
+    SinkUnlocking { row_bytes: usize },
+    /// float cache lookup
+    CacheGet { key: &'a [i64], hit: bool },
+    /// float cache store
+    CacheUpdate { key: &'a [i64], value: f64 },
+}
+
+pub type Sink = Arc<dyn for<'a> Fn(&Event<'a>) + Send + Sync>;
+
+static ENABLED: AtomicBool = AtomicBool::new(false);
+static SINK: RwLock<Option<Sink>> = RwLock::new(None);
+
+/// install (or remove, with `None`) the process-wide event sink.
+pub fn set_sink(sink: Option<Sink>) {
+    let mut guard = match SINK.write() {
+        Ok(g) => g,
+        Err(p) => p.into_inner(),
+    };
+    ENABLED.store(sink.is_some(), Ordering::SeqCst);
+    *guard = sink;
+}
+
+/// deliver an event to the installed sink, if any. the sink is called without
+/// any lock of this module held, so it may block, sleep or unwind.
+#[inline]
+pub fn emit(event: Event<'_>) {
+    if !ENABLED.load(Ordering::Relaxed) {
+        return;
+    }
+    let sink = {
+        let guard = match SINK.read() {
+            Ok(g) => g,
+            Err(p) => p.into_inner(),
+        };
+        guard.clone()
+    };
+    if let Some(s) = sink {
+        s(&event);
+    }
+}
